@@ -167,7 +167,8 @@ def run(chk):
                 'the Lean model encodeMsg/encodeMsgFile through the driver; grid: every fragment size k=1..%s x every '
                 'data length 1..4k+2, every maximum length 7..300 with and without data set, 2^e and 2^e+-1 up to '
                 '2^32-1, 0 (no limit), all 23 classes, contexts 1..255, data as bytes / BytesIO / temp file; '
-                'non-trivial = more than one fragment in the stream')
+                'file-like data positioned behind a prefix; the message object changed between send() and consumption; '
+                'non-trivial = more than one fragment in the stream') % (40 if chk.tier == 'quick' else 120)
     chk.trusted += ['harness/c06.py oracle and msgs.parse_pdata (independent P-DATA-TF reader)',
                     'pydicom write_dataset (command set bytes are an input to the model)']
     cases = gen_cases(chk, chk.tier)
